@@ -69,6 +69,12 @@ inductive Src where
   | old (i : Nat) | depthParam | fresh
   deriving DecidableEq, Repr
 
+/-- Where `Catcher.__exit__` reads the extra-frame correction of the `async with` protocol from: a parameter of
+the call (per-call state) or an attribute of the Catcher object (state shared by every user of the object). -/
+inductive FramesSrc where
+  | param | selfAttr
+  deriving DecidableEq, Repr
+
 /-- How a public logging method derives the options it hands to `_log` from `self._options`:
 `selfOptions` = `__self._options` itself; `prependDrop p d` = a `p`-tuple of constants followed by
 `__self._options[d:]` (the shape of `exception()`: `(True,) + __self._options[1:]`). -/
